@@ -52,6 +52,10 @@ chk("C15", "E2", "explicit enumeration of all token sequences up to k tokens x g
     "Every sequence of <=3 tokens (full 32-token alphabet, all gap patterns), <=2 over a 92-token extended alphabet, 4 over a 21-token sub-alphabet [thorough: 4 full with all 8 gap patterns, 3 extended, 5 sub] and every single-token insert/delete/replace/swap/duplicate of ~60 derivations: the real parser accepts exactly what the reference grammar accepts and builds the same tree.",
     "Reference grammar is a hand transcription of grammar.peg interpreted with pigeon's observable semantics (ordered choice, global errors, lookahead, UTF-8 validity); frozen, updated only with grammar fixes; C20 ties grammar.go to grammar.peg.", "DESIGN.md 5 C15")
 
+chk("C11", "E2", "explicit enumeration of inputs x budgets (every n in 1..N+2 for small N, threshold neighbourhood + geometric sweep otherwise) on the real parser through a read-only step-count accessor added by the generated overlay",
+    "For every input of the bounded set (token sequences, derivations, invalid variants, nested parentheses) and every budget of the sweep: n=0 or n>=N reproduces the unlimited result exactly, 0<n<N yields nil + the max-expressions error, a limited parse runs <= n+1 steps, CreateEvaluator agrees with Parse under the same budget, deep nesting is rejected within the budget (steps, not wall clock).",
+    "Accessor grammar.VerifParse exists only in the overlay (build tag verif); message text learned from the implementation; bounded inputs.", "DESIGN.md 5 C11")
+
 REASON_NOT_BUILT = "check not built yet (in progress) - will be decided by bounded exhaustive exploration, see DESIGN.md"
 
 def main():
